@@ -184,6 +184,9 @@ func ReaderTouch(p *load.Program, r *report.Report, allowed []string) {
 		switch {
 		case len(res.unk) > 0:
 			r.Unknown(rule, key, pos, strings.Join(dedupSorted(res.unk), "; "))
+		case len(res.touches) > 0 && !allow[fname(f)] && calledOnlyFromAllowed(p, f, allow, 0):
+			nTouch++
+			r.OK(rule, key, pos, "a helper of the framing functions (every call of it comes from one of them, it is never used as a value); operations on the reader: "+joinSorted(res.touches))
 		case len(res.touches) > 0 && !allow[fname(f)]:
 			r.Bad(rule, key, pos, fmt.Sprintf("%s operates on the demuxer's reader (%s) but is not one of the framing functions {%s}: bytes consumed here bypass the packet framing", fname(f), joinSorted(res.touches), strings.Join(allowed, ", ")))
 		case len(res.touches) > 0:
@@ -564,6 +567,38 @@ func errorfOnly(mi *ssa.MakeInterface) bool {
 	return n > 0
 }
 
+// calledOnlyFromAllowed: every use of f in the package is a static call from a function named in allow, or from a function of
+// which the same holds.
+func calledOnlyFromAllowed(p *load.Program, f *ssa.Function, allow map[string]bool, depth int) bool {
+	if depth > 3 {
+		return false
+	}
+	n := 0
+	for _, g := range p.SrcFuncs() {
+		for _, b := range g.Blocks {
+			for _, in := range b.Instrs {
+				for _, op := range in.Operands(nil) {
+					if op == nil || *op != ssa.Value(f) {
+						continue
+					}
+					ci, isCall := in.(ssa.CallInstruction)
+					if !isCall || ci.Common().Value != ssa.Value(f) {
+						return false // used as a value
+					}
+					if _, plain := in.(*ssa.Call); !plain {
+						return false
+					}
+					n++
+					if !allow[fname(g)] && (g == f || !calledOnlyFromAllowed(p, g, allow, depth+1)) {
+						return false
+					}
+				}
+			}
+		}
+	}
+	return n > 0
+}
+
 // ---- (d) resync identity -------------------------------------------------------------------
 
 // onEdge reports whether every path to block b passes the succ-th edge of an If on cond.
@@ -604,12 +639,68 @@ func ResyncIdentity(p *load.Program, r *report.Report) {
 		}
 	}
 	key := fname(ad) + "/identity"
+	// the rewind-or-resync part may live in a helper that is handed the reader: cf is the function holding it, hc the call of the
+	// helper in autoDetectPacketSize (nil when it is autoDetectPacketSize itself)
+	cf := ad
+	var hc *ssa.Call
+	if rwCall == nil {
+		for _, ci := range ssau.Calls(ad) {
+			c, ok := ci.(*ssa.Call)
+			if !ok {
+				continue
+			}
+			h := c.Call.StaticCallee()
+			if h == nil || h.Pkg != ad.Pkg || len(h.Blocks) == 0 || h == pk || h == rw {
+				continue
+			}
+			ri := -1
+			for i, a := range c.Call.Args {
+				if a == ssa.Value(rd) {
+					ri = i
+				}
+			}
+			if ri < 0 || ri >= len(h.Params) {
+				continue
+			}
+			var hrw *ssa.Call
+			var hreads []*ssa.Call
+			for _, hi := range ssau.Calls(h) {
+				if x, ok := hi.(*ssa.Call); ok {
+					switch {
+					case x.Call.StaticCallee() == rw:
+						hrw = x
+					case ssau.CalleeName(&x.Call) == "io.ReadFull":
+						hreads = append(hreads, x)
+					}
+				}
+			}
+			if hrw == nil {
+				continue
+			}
+			// the helper is this function's alone
+			only := true
+			for _, f := range p.SrcFuncs() {
+				for _, oi := range ssau.Calls(f) {
+					if oi.Common().StaticCallee() == h && (f != ad || oi != ssa.CallInstruction(c)) {
+						only = false
+					}
+				}
+			}
+			if !only {
+				r.Unknown(rule, key, p.Pos(c.Pos()), fname(h)+" rewinds the reader and is called from more than one place")
+				return
+			}
+			cf, hc, rwCall, readFulls = h, c, hrw, hreads
+			rd = h.Params[ri]
+			break
+		}
+	}
 	if peekCall == nil || rwCall == nil {
-		r.Unknown(rule, key, p.Pos(ad.Pos()), "autoDetectPacketSize no longer calls peek and rewind")
+		r.Unknown(rule, key, p.Pos(ad.Pos()), "autoDetectPacketSize no longer calls peek and rewind (directly or through one helper that is handed the reader)")
 		return
 	}
 	okFresh, l := freshSlice(peekCall.Call.Args[1])
-	if !okFresh || l <= 0 || peekCall.Call.Args[0] != ssa.Value(rd) {
+	if !okFresh || l <= 0 || peekCall.Call.Args[0] != ssa.Value(ad.Params[0]) {
 		r.Unknown(rule, key, p.Pos(peekCall.Pos()), "the peek buffer is not a fresh slice of constant length over the function's reader")
 		return
 	}
@@ -662,7 +753,10 @@ func ResyncIdentity(p *load.Program, r *report.Report) {
 	// the packet size returned on the paths through the resync
 	var size ssa.Value
 	for _, ret := range ssau.Returns(ad) {
-		if !onEdge(ret.Block(), edgeCond, edgeSucc) {
+		if hc == nil && !onEdge(ret.Block(), edgeCond, edgeSucc) {
+			continue
+		}
+		if hc != nil && ret.Block() != hc.Block() && !ssau.Reaches(hc.Block(), ret.Block()) {
 			continue
 		}
 		if size != nil && size != ret.Results[0] {
@@ -677,6 +771,24 @@ func ResyncIdentity(p *load.Program, r *report.Report) {
 	}
 	stop := map[ssa.Value]bool{size: true}
 	ls := linOfStop(mk.Len, stop)
+	if hc != nil {
+		// the length is computed from the helper's parameters: put the call's arguments in their place
+		pstop := map[ssa.Value]bool{}
+		for _, prm := range cf.Params {
+			pstop[prm] = true
+		}
+		inH := linOfStop(mk.Len, pstop)
+		ls = linform{coef: map[ssa.Value]int64{}, c: inH.c}
+		for v, k := range inH.coef {
+			sub := linform{coef: map[ssa.Value]int64{v: 1}}
+			for i, prm := range cf.Params {
+				if v == ssa.Value(prm) && i < len(hc.Call.Args) {
+					sub = linOfStop(hc.Call.Args[i], stop)
+				}
+			}
+			ls = ls.add(sub, k)
+		}
+	}
 	total := ls.add(linform{coef: map[ssa.Value]int64{}, c: l}, 1)
 	want := linOfStop(size, stop).scale(2)
 	if total.equal(want) {
@@ -690,7 +802,11 @@ func ResyncIdentity(p *load.Program, r *report.Report) {
 	sr := ssau.ResultValue(peekCall, 0)
 	okGuard, why := len(sr) == 1, "peek's shouldRewind result is not used"
 	if okGuard {
-		for _, c := range append([]*ssa.Call{rwCall}, readFulls...) {
+		guarded := append([]*ssa.Call{rwCall}, readFulls...)
+		if hc != nil {
+			guarded = []*ssa.Call{hc} // the helper's calls are reached through this call only
+		}
+		for _, c := range guarded {
 			if !onEdge(c.Block(), sr[0], 0) {
 				okGuard, why = false, "the call at "+p.Pos(c.Pos())+" touches the reader on a path where peek did not consume anything (shouldRewind false)"
 			}
